@@ -4,45 +4,229 @@
 (* the inputs explored with each.  A universe is a set of records           *)
 (*   [prog, root, alpha, maxlen, starts]                                    *)
 (* alpha = byte alphabet for the exhaustive inputs of this declaration,     *)
-(* maxlen = all strings over alpha up to this length, starts = start        *)
-(* offsets (the bytes before the start offset are 0xEE filler).             *)
+(* maxlen = all strings over alpha up to this length (scaled by the         *)
+(* constant LenBonus of the profile), starts = start offsets (the bytes     *)
+(* before the start offset are 0xEE filler).                                *)
 (***************************************************************************)
 EXTENDS Expr
 
+LenBonus == 0     \* overridden by thorough profiles (LenBonus <- LB1 ...)
+LB1 == 1
+LB2 == 2
+LB3 == 3
+
 Strings(alpha, maxlen) == UNION {[1..k -> alpha] : k \in 0..maxlen}
 
-InputsOf(d) == Strings(d.alpha, d.maxlen)
+InputsOf(d) == Strings(d.alpha, d.maxlen + LenBonus)
 StartsOf(d) == d.starts
 PrefixOf(d, s) == [i \in 1..s |-> 238]
 
-Decl1(fields, alpha, maxlen) ==
-    [prog |-> [C0 |-> Class(DefaultOpts, fields)], root |-> "C0", alpha |-> alpha, maxlen |-> maxlen, starts |-> {0}]
+DeclO(opts, fields, alpha, maxlen) ==
+    [prog |-> [C0 |-> Class(opts, fields)], root |-> "C0", alpha |-> alpha, maxlen |-> maxlen, starts |-> {0}]
+Decl1(fields, alpha, maxlen) == DeclO(DefaultOpts, fields, alpha, maxlen)
 DeclP(prog, alpha, maxlen, starts) ==
     [prog |-> prog, root |-> "C0", alpha |-> alpha, maxlen |-> maxlen, starts |-> starts]
 
-Sub1 == Class(DefaultOpts, <<IntF("x", 1, FALSE, "default"), IntF("y", 1, FALSE, "default")>>)
+U1(f) == IntF(f, 1, FALSE, "default")
+S1(f) == IntF(f, 1, TRUE, "default")
+Sub1 == Class(DefaultOpts, <<U1("x"), U1("y")>>)
+Defer(e) == SzExpr(e, "deferred")
+Lam(e) == SzExpr(e, "lambda")
 
+\* ------------------------------------------------------------------ smoke
 U_Smoke == {
-    Decl1(<<IntF("a", 1, FALSE, "default"), IntF("b", 2, TRUE, "little")>>, {0, 1, 255}, 4),
+    Decl1(<<U1("a"), IntF("b", 2, TRUE, "little")>>, {0, 1, 255}, 4),
     Decl1(<<IntF("a", 3, TRUE, "default")>>, {0, 128, 255}, 4),
-    Decl1(<<IntF("n", 1, FALSE, "default"), DataF("d", SzField("n")), IntF("z", 1, FALSE, "default")>>, {0, 1, 2, 65}, 4),
-    Decl1(<<DataF("d", SzMarker(<<0>>, FALSE, TRUE)), IntF("z", 1, FALSE, "default")>>, {0, 65}, 4),
+    Decl1(<<U1("n"), DataF("d", SzField("n")), U1("z")>>, {0, 1, 2, 65}, 4),
+    Decl1(<<DataF("d", SzMarker(<<0>>, FALSE, TRUE)), U1("z")>>, {0, 65}, 4),
     Decl1(<<DataF("d", SzRegex("Xplus", TRUE, TRUE)), DataF("e", SzRegex("EOS", FALSE, TRUE))>>, {88, 65}, 4),
     Decl1(<<BitsF("h", 3), BitsF("l", 5), BitsF("p", 12), BitsF("q", 4)>>, {0, 165, 255}, 4),
-    Decl1(<<IntF("n", 1, FALSE, "default"),
-            RepCountF("r", IntF("e", 1, FALSE, "default"), SzField("n"), NoCond, 0),
-            EmF("tail")>>, {0, 1, 2}, 4),
-    Decl1(<<IntF("t", 1, FALSE, "default"),
-            OptF("o", DataF("e", SzConst(2)), SzExpr(EBin("eq", EF("t"), EC(1)), "deferred"))>>, {0, 1, 65}, 4),
-    DeclP([C0 |-> Class(DefaultOpts, <<IntF("a", 1, FALSE, "default"), RefF("s", "C1"),
-                                       WithMv(IntF("b", 1, FALSE, "default"), "at", SzConst(4), "innermost-pkt")>>),
+    Decl1(<<U1("n"), RepCountF("r", U1("e"), SzField("n"), NoCond, 0), EmF("tail")>>, {0, 1, 2}, 4),
+    Decl1(<<U1("t"), OptF("o", DataF("e", SzConst(2)), Defer(EBin("eq", EF("t"), EC(1))))>>, {0, 1, 65}, 4),
+    DeclP([C0 |-> Class(DefaultOpts, <<U1("a"), RefF("s", "C1"),
+                                       WithMv(U1("b"), "at", SzConst(4), "innermost-pkt")>>),
            C1 |-> Sub1], {0, 1, 65}, 5, {0, 1}),
     DeclP([C0 |-> Class(DefaultOpts, <<RepUntilF("r", RefF("e", "C1"),
-                                          SzExpr(EBin("eq", EAttr(EIdx(EF("r"), EC(-1)), "y"), EC(0)), "lambda"), NoCond, 2)>>),
+                                          Lam(EBin("eq", EAttr(EIdx(EF("r"), EC(-1)), "y"), EC(0))), NoCond, 2)>>),
            C1 |-> Sub1], {0, 1}, 6, {0}),
-    DeclP([C0 |-> Class(DefaultOpts, <<IntF("t", 1, FALSE, "default"),
+    DeclP([C0 |-> Class(DefaultOpts, <<U1("t"),
                                        RefSelF("v", EF("t"), <<[key |-> 1, alt |-> IntF("", 2, FALSE, "default")],
                                                                [key |-> 2, alt |-> RefF("", "C1")]>>, "chooses", IntV(0))>>),
            C1 |-> Sub1], {0, 1, 2}, 4, {0})
 }
+
+\* -------------------------------------------------------------------- C06
+\* [pre: Int(1), d: Data(mode), post: Int(1)] for every sizing mode, class search window
+SizedModes == {SzConst(0), SzConst(1), SzConst(2), SzField("pre"),
+               Defer(EBin("mul", EF("pre"), EC(2))), Defer(EBin("sub", EF("pre"), EC(1))),
+               Lam(EBin("add", EF("pre"), EC(1))), Lam(EBin("sub", EF("pre"), EC(2))),
+               Lam(EBin("sub", ERest, EC(1)))}
+MarkerModes(b) == {SzMarker(b, i, c) : i \in BOOLEAN, c \in BOOLEAN} \ {SzMarker(b, TRUE, FALSE)}
+RegexModes(r) == {SzRegex(r, i, c) : i \in BOOLEAN, c \in BOOLEAN} \ {SzRegex(r, TRUE, FALSE)}
+Windows == {-1, 0, 1, 2, 3}
+
+DataDecl(mode, sbl, alpha, n) ==
+    DeclO([DefaultOpts EXCEPT !.sbl = sbl], <<U1("pre"), DataF("d", mode), U1("post")>>, alpha, n)
+
+U_C06 ==
+    {DataDecl(md, -1, {0, 1, 2, 3}, 5) : md \in SizedModes}
+    \cup {DataDecl(md, w, {0, 1, 65}, 5) : md \in MarkerModes(<<0>>), w \in Windows}
+    \cup {DataDecl(md, w, {97, 98, 1}, 5) : md \in MarkerModes(<<97, 98>>), w \in Windows}
+    \cup {DataDecl(md, w, {97, 1}, 6) : md \in MarkerModes(<<97, 97>>), w \in Windows}
+    \cup {DataDecl(md, w, {88, 65, 1}, 5) : md \in RegexModes("Xplus"), w \in Windows}
+    \cup {DataDecl(md, w, {13, 10, 65}, 5) : md \in RegexModes("crlf"), w \in Windows}
+    \cup {DataDecl(md, w, {88, 89, 1}, 5) : md \in RegexModes("XorY"), w \in Windows}
+    \cup {DataDecl(md, w, {88, 10, 1}, 5) : md \in RegexModes("Xplus_or_end"), w \in Windows}
+    \cup {DataDecl(md, w, {89, 1}, 6) : md \in RegexModes("Ystar"), w \in Windows}
+    \cup {DataDecl(md, w, {0, 1, 65}, 5) : md \in {SzRegex("EOS", FALSE, TRUE)}, w \in {-1, 2}}
+    \* the same field one level down, after a header byte of the outer packet
+    \cup {DeclP([C0 |-> Class(DefaultOpts, <<U1("h"), RefF("s", "C1"), U1("t")>>),
+                 C1 |-> Class([DefaultOpts EXCEPT !.sbl = w], <<U1("pre"), DataF("d", md), U1("post")>>)],
+                {0, 1, 2}, 5, {0, 2}) : md \in {SzField("pre"), SzMarker(<<0>>, FALSE, TRUE), SzMarker(<<0>>, TRUE, TRUE)},
+                                        w \in {-1, 2}}
+
+\* -------------------------------------------------------------------- C07
+\* all compositions of `total` bits into consecutive Bits fields
+RECURSIVE Compositions(_)
+Compositions(total) ==
+    IF total = 0 THEN {<<>>}
+    ELSE UNION {{<<w>> \o c : c \in Compositions(total - w)} : w \in 1..total}
+
+BitNames == <<"b1", "b2", "b3", "b4", "b5", "b6", "b7", "b8", "b9", "b10", "b11", "b12", "b13", "b14", "b15", "b16">>
+BitFields(ws) == [i \in 1..Len(ws) |-> BitsF(BitNames[i], ws[i])]
+
+U_C07_8 == {Decl1(BitFields(ws), 0..255, 1) : ws \in Compositions(8)}
+Lanes == {0, 1, 127, 128, 165, 254, 255}
+U_C07_16 == {Decl1(BitFields(ws), Lanes, 2) : ws \in {c \in Compositions(16) : Len(c) <= 4}}
+U_C07_24 == {Decl1(<<U1("pre")>> \o BitFields(ws) \o <<U1("post")>>, {0, 165, 255}, 5) :
+                ws \in {<<12, 12>>, <<4, 12, 8>>, <<1, 22, 1>>, <<7, 9, 3, 5>>, <<24>>}}
+\* runs next to other fields, in nested packets, under a little-endian class default
+U_C07_Ctx ==
+    {DeclO([DefaultOpts EXCEPT !.endian = e], <<U1("pre")>> \o BitFields(ws) \o <<IntF("post", 2, FALSE, "default")>>,
+           {0, 1, 165, 255}, 5) : ws \in {<<3, 5>>, <<4, 12>>, <<12, 4>>, <<1, 7, 8>>}, e \in {"none", "little"}}
+    \cup {DeclP([C0 |-> Class(DefaultOpts, <<BitsF("a", 4), BitsF("b", 4), RefF("s", "C1"), BitsF("c", 2), BitsF("d", 6)>>),
+                 C1 |-> Class(DefaultOpts, BitFields(<<5, 3>>))], {0, 90, 255}, 4, {0, 1})}
+U_C07 == U_C07_8 \cup U_C07_24 \cup U_C07_Ctx
+
+\* -------------------------------------------------------------------- C08
+Elems == {U1("e"), IntF("e", 2, TRUE, "little"), DataF("e", SzConst(1)), DataF("e", SzMarker(<<0>>, FALSE, TRUE)),
+          RefF("e", "C1"),
+          RefSelF("e", EF("t"), <<[key |-> 0, alt |-> IntF("", 1, FALSE, "default")],
+                                  [key |-> 1, alt |-> IntF("", 2, FALSE, "default")],
+                                  [key |-> 2, alt |-> RefF("", "C1")]>>, "chooses", IntV(0)),
+          RefSelF("e", EF("t"), <<[key |-> 0, alt |-> DataF("", SzConst(1))],
+                                  [key |-> 1, alt |-> RefF("", "C1")]>>, "lambda", IntV(0))}
+Counts == {SzConst(-1), SzConst(0), SzConst(2), SzField("n"), Defer(EBin("sub", EF("n"), EC(1))),
+           Defer(EBin("mul", EF("n"), EC(2))), Lam(EBin("add", EF("n"), EC(1))), Lam(EF("n"))}
+Whens == {NoCond, SzField("t"), Defer(EBin("eq", EF("t"), EC(1))), Lam(EBin("gt", EF("t"), EC(0)))}
+\* until conditions by element kind
+UntilInt == {Lam(EBin("eq", EIdx(EF("r"), EC(-1)), EC(0))), Lam(EBin("ge", EUn("len", EF("r")), EC(2)))}
+UntilBytes == {Lam(EBin("eq", EIdx(EF("r"), EC(-1)), EUn("neg", EC(1)))), Lam(EBin("ge", EUn("len", EF("r")), EC(2)))}
+UntilPkt == {Lam(EBin("eq", EAttr(EIdx(EF("r"), EC(-1)), "y"), EC(0))), Lam(EBin("ge", EUn("len", EF("r")), EC(2)))}
+IsIntElem(e) == e.k = "Int"
+IsPktElem(e) == e.k = "Ref"
+
+CtlProg(fields) == [C0 |-> Class(DefaultOpts, fields), C1 |-> Sub1]
+CtlDecl(fields, n) == DeclP(CtlProg(fields), {0, 1, 2, 255}, n, {0})
+
+U_C08_Count == {CtlDecl(<<S1("n"), U1("t"), RepCountF("r", e, c, w, 0), U1("z")>>, 4) :
+                   e \in Elems, c \in Counts, w \in {NoCond, SzField("t")}}
+               \cup {CtlDecl(<<S1("n"), U1("t"), RepCountF("r", e, SzField("n"), w, a), U1("z")>>, 4) :
+                   e \in {U1("e"), RefF("e", "C1")}, w \in Whens, a \in {0, 2, 3}}
+\* (per-element alignment is measured from absolute position 0, like 'begins': start offset 0 only)
+U_C08_Until == {CtlDecl(<<U1("t"), RepUntilF("r", e, u, w, a), U1("z")>>, 5) :
+                   e \in {U1("e"), IntF("e", 2, TRUE, "little")}, u \in UntilInt, w \in {NoCond, SzField("t")}, a \in {0, 2}}
+               \cup {CtlDecl(<<U1("t"), RepUntilF("r", RefF("e", "C1"), u, w, a), U1("z")>>, 5) :
+                   u \in UntilPkt, w \in {NoCond, Defer(EBin("eq", EF("t"), EC(1)))}, a \in {0, 3}}
+U_C08_Opt == {CtlDecl(<<U1("t"), OptF("o", e, w), U1("z")>>, 4) : e \in Elems, w \in Whens \ {NoCond}}
+\* packets inside sequences inside packets
+U_C08_Nest == {DeclP([C0 |-> Class(DefaultOpts, <<S1("n"), RepCountF("r", RefF("e", "C1"), SzField("n"), NoCond, 0), U1("z")>>),
+                      C1 |-> Class(DefaultOpts, <<U1("m"), RepCountF("s", U1("e"), SzField("m"), NoCond, 0),
+                                                  OptF("o", RefF("e", "C2"), Defer(EBin("gt", EF("m"), EC(1))))>>),
+                      C2 |-> Class(DefaultOpts, <<U1("q")>>)], {0, 1, 2}, 6, {0, 1})}
+U_C08 == U_C08_Count \cup U_C08_Until \cup U_C08_Opt \cup U_C08_Nest
+
+\* -------------------------------------------------------------------- C10
+Refs == {"innermost-pkt", "begins", "current-offset"}
+MvArgs == {SzConst(0), SzConst(1), SzConst(3), SzField("a"), Lam(EBin("add", EF("a"), EC(1)))}
+AlArgs == {SzConst(1), SzConst(2), SzConst(3), SzConst(4), SzField("a")}
+Mods == {[kind |-> "at", arg |-> g, ref |-> r] : g \in MvArgs, r \in Refs}
+        \cup {[kind |-> "shift", arg |-> g, ref |-> "current-offset"] : g \in MvArgs \cup {SzConst(-1), SzConst(-2)}}
+        \cup {[kind |-> "aligned", arg |-> g, ref |-> r] : g \in AlArgs, r \in Refs}
+MvField(f, mv) == [f EXCEPT !.mv = mv]
+UsesBegins(mv) == mv.kind \in {"at", "aligned"} /\ mv.ref = "begins"
+
+\* flat: [a, b.<modifier>, c]; nested: the same class one level down behind a header
+U_C10_Flat == {DeclP([C0 |-> Class(DefaultOpts, <<S1("a"), MvField(U1("b"), mv), U1("c")>>)], {0, 1, 2, 255}, 4,
+                      IF UsesBegins(mv) THEN {0} ELSE {0, 1, 3}) : mv \in Mods}
+U_C10_Nest == {DeclP([C0 |-> Class(DefaultOpts, <<U1("h"), RefF("s", "C1"), U1("t")>>),
+                      C1 |-> Class(DefaultOpts, <<S1("a"), MvField(U1("b"), mv), U1("c")>>)], {0, 1, 2}, 5,
+                     IF UsesBegins(mv) THEN {0} ELSE {0, 2}) : mv \in Mods}
+U_C10_Class == {DeclO([DefaultOpts EXCEPT !.align = al], <<U1("a"), IntF("b", 2, FALSE, "default"), U1("c"), EmF("tail")>>,
+                      {0, 1}, 7) : al \in {2, 3, 4}}
+               \cup {DeclP([C0 |-> Class(DefaultOpts, <<U1("h"), RefF("s", "C1")>>),
+                            C1 |-> Class([DefaultOpts EXCEPT !.align = al], <<U1("a"), U1("b")>>)], {0, 1}, 6, {0}) : al \in {2, 3}}
+U_C10_Elem == {DeclP([C0 |-> Class(DefaultOpts, <<U1("n"), RepCountF("r", e, SzField("n"), NoCond, al), MvField(EmF("tail"), mv)>>),
+                      C1 |-> Class(DefaultOpts, <<U1("x")>>)], {0, 1, 2}, 6, {0}) :
+                 e \in {U1("e"), RefF("e", "C1"), IntF("e", 3, FALSE, "default")}, al \in {2, 3, 4, 6},
+                 mv \in {NoMv, [kind |-> "aligned", arg |-> SzConst(4), ref |-> "innermost-pkt"]}}
+              \cup {DeclP([C0 |-> Class(DefaultOpts, <<RepUntilF("r", U1("e"), Lam(EBin("eq", EIdx(EF("r"), EC(-1)), EC(0))), NoCond, al), U1("z")>>)],
+                          {0, 1, 2}, 6, {0}) : al \in {2, 3}}
+U_C10 == U_C10_Flat \cup U_C10_Nest \cup U_C10_Class \cup U_C10_Elem
+
+\* -------------------------------------------------------------------- C12
+\* nested declarations driven into failure at every depth
+U_C12 ==
+    {DeclP([C0 |-> Class(DefaultOpts, <<U1("h"), RefF("s", "C1"), IntF("t", 2, FALSE, "default")>>),
+            C1 |-> Class(DefaultOpts, <<U1("n"), RepCountF("r", RefF("e", "C2"), SzField("n"), NoCond, 0),
+                                        OptF("o", IntF("e", 3, FALSE, "default"), SzField("n"))>>),
+            C2 |-> Class(DefaultOpts, <<U1("k"), DataF("d", SzField("k")), DataF("m", SzMarker(<<0>>, FALSE, TRUE))>>)],
+           {0, 1, 2}, 7, {0, 1}),
+     DeclP([C0 |-> Class(DefaultOpts, <<U1("t"),
+                                        RefSelF("v", EF("t"), <<[key |-> 0, alt |-> IntF("", 2, FALSE, "default")],
+                                                                [key |-> 1, alt |-> RefF("", "C1")]>>, "chooses", IntV(0)),
+                                        U1("z")>>),
+            C1 |-> Class(DefaultOpts, <<U1("x"), DataF("y", Defer(EBin("floordiv", EC(4), EF("x"))))>>)],
+           {0, 1, 2, 3}, 6, {0, 2}),
+     DeclP([C0 |-> Class(DefaultOpts, <<U1("a"), IntF("b", 2, FALSE, "default"), IntF("c", 3, FALSE, "default"),
+                                        IntF("d", 2, FALSE, "little"), DataF("e", SzConst(2)), U1("f"), BitsF("g", 4), BitsF("i", 4)>>)],
+           {0, 1}, 9, {0}),
+     DeclP([C0 |-> Class(DefaultOpts, <<S1("a"), MvField(DataF("b", SzConst(1)), [kind |-> "at", arg |-> SzField("a"), ref |-> "innermost-pkt"]),
+                                        MvField(U1("c"), [kind |-> "shift", arg |-> SzField("a"), ref |-> "current-offset"])>>)],
+           {0, 1, 2, 254, 255}, 5, {0, 1}),
+     DeclP([C0 |-> Class(DefaultOpts, <<RepUntilF("r", RefF("e", "C1"), Lam(EBin("eq", EAttr(EIdx(EF("r"), EC(-1)), "x"), EC(0))), NoCond, 0)>>),
+            C1 |-> Class(DefaultOpts, <<U1("x"), DataF("d", SzField("x"))>>)], {0, 1, 2}, 6, {0})}
+
+\* -------------------------------------------------------------------- C01 / C14
+\* mixed declarations; C01 leaves out what the property excludes (non-kept regex delimiters other
+\* than EOS, consume_delimiter=False) and described fields.
+RoundTripModes == {SzConst(0), SzConst(2), SzField("a"), Defer(EBin("mul", EF("a"), EC(2))),
+                   Lam(EBin("add", EF("a"), EC(1))),
+                   SzMarker(<<0>>, FALSE, TRUE), SzMarker(<<0>>, TRUE, TRUE), SzMarker(<<1, 2>>, FALSE, TRUE),
+                   SzRegex("Xplus", TRUE, TRUE), SzRegex("EOS", FALSE, TRUE)}
+AlphaFor(md) == IF md.m = "regex" THEN {88, 1, 2} ELSE {0, 1, 2}
+U_C01_Data == {DeclO([DefaultOpts EXCEPT !.sbl = w, !.endian = e],
+                     <<U1("a"), DataF("d", md), IntF("z", 2, TRUE, "default")>>, AlphaFor(md), 6) :
+                  md \in RoundTripModes, w \in {-1, 3}, e \in {"none", "little"}}
+U_C01_Move == {[d EXCEPT !.alpha = {0, 1, 2, 46}] : d \in U_C10_Flat \cup U_C10_Class \cup U_C10_Elem}
+U_C01_Ctl == {d \in U_C08_Count : d.prog["C0"].fields[3].count \in {SzField("n"), Defer(EBin("sub", EF("n"), EC(1)))}}
+             \cup U_C08_Until \cup U_C08_Opt \cup U_C08_Nest
+\* overlapping placements: two fields that may consume common bytes
+U_C01_Overlap == {DeclP([C0 |-> Class(DefaultOpts, <<U1("a"), DataF("b", SzConst(2)),
+                                                    MvField(DataF("c", SzField("a")), [kind |-> "at", arg |-> g, ref |-> "innermost-pkt"]),
+                                                    MvField(U1("d"), [kind |-> "at", arg |-> SzConst(1), ref |-> "begins"])>>)],
+                        {0, 1, 2, 46}, 5, {0}) : g \in {SzConst(0), SzConst(2), SzConst(3), SzConst(4)}}
+U_C01 == U_C01_Data \cup U_C01_Move \cup U_C01_Ctl \cup U_C01_Overlap \cup U_C07_24 \cup U_C07_Ctx
+
+\* the every-change subset: every family is represented, the cross products are thinned
+U_C01_Q == U_C01_Data \cup U_C01_Overlap \cup U_C07_24
+           \cup {[d EXCEPT !.alpha = {0, 1, 46}] : d \in U_C10_Class \cup U_C10_Elem}
+           \cup {[d EXCEPT !.alpha = {0, 2, 46}, !.starts = {0}] : d \in U_C10_Flat}
+           \cup U_C08_Until \cup U_C08_Nest
+           \cup {d \in U_C08_Opt : d.prog["C0"].fields[2].when = SzField("t")}
+
+NoBegins(d) == \A c \in DOMAIN d.prog : \A i \in 1..Len(d.prog[c].fields) :
+                  ~UsesBegins(d.prog[c].fields[i].mv) /\ d.prog[c].opts.align = 0
+NoRawCallable(d) == \A c \in DOMAIN d.prog : \A i \in 1..Len(d.prog[c].fields) :
+                  LET f == d.prog[c].fields[i] IN ~(f.k = "Data" /\ f.size = Lam(EBin("sub", ERest, EC(1))))
 =============================================================================
